@@ -511,7 +511,7 @@ def run_codepoints(sv, tier, i, n, res):
         ch = chr(cp)
         for form in ('.x%s', '#%s-', '[a="%sz"]'):
             base = form % ch
-            for esc in ('\\%x ' % cp, '\\%06X' % cp):
+            for esc in ('\\%x ' % cp, '\\%06X' % cp, '\\%06x ' % cp):      # the blank after an escape belongs to it, also after all six digits
                 var = form % esc
                 res.evaluations += 1
                 res.nontrivial += 1
